@@ -943,9 +943,12 @@ impl Check for C10 {
     }
     fn generate(&self, s: &mut Src, _tier: Tier) -> Value {
         let (sf, nf) = formats_json();
-        let (files, kind): (Vec<(String, String)>, &str) = match s.below(4) {
-            0 | 1 => (C09.gen_case(s).files, "layout"),
-            2 => (ns_stress(s), "namespace_stress"),
+        let (files, kind): (Vec<(String, String)>, &str) = match s.below(9) {
+            0..=3 => (C09.gen_case(s).files, "layout"),
+            4 | 5 => (ns_stress(s), "namespace_stress"),
+            // a body evaluated once per key of a mapped type: the first error and the numbering of generated helper
+            // types follow the order the keys are visited in
+            6 => (crate::c04::mapped_type_per_key(s), "mapped_type_per_key"),
             _ => {
                 let c = crate::c04::C04;
                 let v = c.generate(s, Tier::Quick);
